@@ -35,9 +35,13 @@ STARTS = ['1970-01-01T00:00:00', '1999-12-31T23:59:59', '2000-01-01T00:00:00', '
           '2024-12-30T00:00:01', '2027-12-31T23:59:59', '2026-09-24T08:15:30']
 DURATIONS = [0, 1, 86400, 365 * 86400, 20 * 365 * 86400 + 5 * 86400]
 SUBJECTS = ['ec256_1', 'ec384_0', 'rsa2048_1', 'ed25519_1']
-ISSUERS = ['ecdsa', 'rsa', 'ed', 'hmac']
-ISSUER_IDS = [('str', 'issuer1'), ('str', 'a-b_c.d~e'), ('comp', ts.tlv(8, b'x/y%z= ')), ('typed', ts.tlv(0x20, b'kw')),
+ISSUERS = ['ecdsa', 'rsa', 'ed', 'hmac', 'ecdsa521', 'ecdsa384', 'ecdsa224']
+EC_ISSUER_KEY = {'ecdsa': 'ec256_0', 'ecdsa521': 'ec521_0', 'ecdsa384': 'ec384_1', 'ecdsa224': 'ec224_0'}
+ISSUER_IDS = [('str', 'issuer1'), ('str', 'a-b_c.d~e'), ('str-escaped', 'Root%20CA'), ('str-version', 'v=7'), ('str-typed', '32=ndn'), ('comp', ts.tlv(8, b'x/y%z= ')), ('typed', ts.tlv(0x20, b'kw')),
               ('comp-empty', ts.tlv(8, b''))]
+
+
+TEXT_ISSUER = {'Root%20CA': ts.tlv(8, b'Root CA'), 'v=7': ts.tlv(0x36, b'\x07'), '32=ndn': ts.tlv(32, b'ndn')}
 
 
 def key_names():
@@ -50,8 +54,8 @@ def key_names():
 
 def issuer_signer(kind):
     loc = '/issuer/' + kind + '/KEY/%01'
-    if kind == 'ecdsa':
-        return Sha256WithEcdsaSigner(loc, key_der('ec256_0')), loc
+    if kind in EC_ISSUER_KEY:
+        return Sha256WithEcdsaSigner(loc, key_der(EC_ISSUER_KEY[kind])), loc
     if kind == 'rsa':
         return Sha256WithRsaSigner(loc, key_der('rsa2048_0')), loc
     if kind == 'ed':
@@ -61,8 +65,8 @@ def issuer_signer(kind):
 
 def direct_verify(kind, signed: bytes, sig: bytes) -> bool:
     try:
-        if kind == 'ecdsa':
-            DSS.new(ECC.import_key(pub_der('ec256_0')), 'fips-186-3', 'der').verify(SHA256.new(signed), sig)
+        if kind in EC_ISSUER_KEY:
+            DSS.new(ECC.import_key(pub_der(EC_ISSUER_KEY[kind])), 'fips-186-3', 'der').verify(SHA256.new(signed), sig)
         elif kind == 'rsa':
             pkcs1_15.new(RSA.import_key(pub_der('rsa2048_0'))).verify(SHA256.new(signed), sig)
         elif kind == 'ed':
@@ -74,7 +78,7 @@ def direct_verify(kind, signed: bytes, sig: bytes) -> bool:
         return False
 
 
-SIGTYPE = {'ecdsa': 3, 'rsa': 1, 'ed': 5, 'hmac': 4}
+SIGTYPE = {'ecdsa': 3, 'rsa': 1, 'ed': 5, 'hmac': 4, 'ecdsa521': 3, 'ecdsa384': 3, 'ecdsa224': 3}
 
 
 def stamp(d: dt.datetime) -> bytes:
@@ -155,6 +159,10 @@ def derive_cases(tier):
         for pad in list(range(0, 120)) + ([65200 + 8 * i for i in range(40)] if tier == 'thorough' else [65290, 65300, 65310]):
             for it in range(nonces if pad < 1000 else 3):
                 yield {'f': 'derive', 'kn': 'pad', 'pad': pad, 'iid': 'str', 'subj': subj, 'iss': 'ecdsa', 'start': STARTS[6], 'dur': 3600, 'it': it}
+    # C2: the other curves as issuers, many nonces each (the DER length of a P-521 signature varies between 137 and 139)
+    for iss in ('ecdsa521', 'ecdsa384', 'ecdsa224'):
+        for it in range(nonces * 3):
+            yield {'f': 'derive', 'kn': 'ident1-id0', 'iid': 'str', 'subj': 'ec256_1', 'iss': iss, 'start': STARTS[6], 'dur': 3600, 'it': it}
     # D: self_sign / sign_req under an owned clock
     for now in ('2024-02-29T12:00:00+00:00', '1999-12-31T23:59:59+00:00', '2000-01-01T00:00:00+00:00', '2027-12-31T23:59:59+00:00'):
         for subj, iss in (('ec256_1', 'ecdsa'), ('rsa2048_1', 'rsa'), ('ed25519_1', 'ed')):
@@ -185,7 +193,7 @@ def run_case(case):
             if case['f'] == 'derive':
                 ids = dict(ISSUER_IDS)
                 iid = ids[case['iid']]
-                issuer_comp = ts.tlv(8, iid.encode()) if isinstance(iid, str) else iid
+                issuer_comp = TEXT_ISSUER.get(iid, ts.tlv(8, iid.encode())) if isinstance(iid, str) else iid
                 start = dt.datetime.fromisoformat(case['start'])
                 if case.get('aware'):
                     start = start.replace(tzinfo=dt.timezone.utc)
@@ -246,10 +254,10 @@ def unit(arg):
         acc.state_count += 1
         acc.transitions += 3
         if info:
-            if info['len'] > 252 or (case['iss'] == 'ecdsa' and info['siglen'] != 72):
+            if info['len'] > 252 or (case['iss'].startswith('ecdsa') and info['siglen'] != 72):
                 acc.nontrivial += 1
-            if case['iss'] == 'ecdsa':
-                acc.notes[f"ecdsa-der-len={info['siglen']}"] += 1
+            if case['iss'].startswith('ecdsa'):
+                acc.notes[f"{case['iss']}-der-len={info['siglen']}"] += 1
             acc.outcome(f"{case['f']}|{case['iss']}|{case['subj']}|outerL={'1' if info['len'] < 255 else ('3' if info['len'] < 65540 else '5')}|sig={info['siglen']}")
         acc.observe([case, info, [v[0] for v in viol]])
         for sig, what in viol:
